@@ -242,6 +242,14 @@ func init() {
 		}
 		return out
 	}
+	c03 := findCheck("C03")
+	c03.Harnesses = append(c03.Harnesses, Harness{Name: "C03_fp", Pkg: "zzh", Func: "H_C03_fp", Reach: []string{"done"}, FP: true,
+		What: "BIT-PRECISE (binary64): for all finite doubles of magnitude <= 1e300, ElMax / ElMin return one of their operands unchanged and bound both; Gt/Ge/Lt/Le are exactly 1 or 0 by the IEEE comparison (vectors of 1..2 elements)",
+		Items: tiered(func() []Item {
+			return sItems("op", []string{"ElMax", "ElMin", "Gt", "Ge", "Lt", "Le"}, items(map[string]int64{"n": 1}))
+		}, func() []Item {
+			return sItems("op", []string{"ElMax", "ElMin", "Gt", "Ge", "Lt", "Le"}, items(map[string]int64{"n": 1}, map[string]int64{"n": 2}))
+		})})
 	c06 := findCheck("C06")
 	c06.Harnesses = append(c06.Harnesses, Harness{Name: "C06_fpzero", Pkg: "zzh", Func: "H_C06_fpzero", Reach: []string{"done"}, FP: true,
 		What: "BIT-PRECISE (binary64): the sign of a zero element survives construction and movement: Zeros holds +0 and Full(dims,-0) holds -0 in either construction order (innermost size 1..3), TensorOf / Reshape / Transpose / Concat deliver -0 as -0 and +0 as +0",
@@ -249,6 +257,14 @@ func init() {
 			return items(map[string]int64{"n": 1, "order": 0}, map[string]int64{"n": 2, "order": 0}, map[string]int64{"n": 2, "order": 1}, map[string]int64{"n": 3, "order": 1})
 		}, func() []Item {
 			return items(map[string]int64{"n": 1, "order": 0}, map[string]int64{"n": 1, "order": 1}, map[string]int64{"n": 2, "order": 0}, map[string]int64{"n": 2, "order": 1}, map[string]int64{"n": 3, "order": 0}, map[string]int64{"n": 3, "order": 1})
+		})})
+	c12b := findCheck("C12")
+	c12b.Harnesses = append(c12b.Harnesses, Harness{Name: "C12_fpbce", Pkg: "zzh", Func: "H_C12_fpbce", Reach: []string{"done"}, FP: true,
+		What: "BIT-PRECISE (binary64): BCE (batch 1) and CE (batch 1, 1..2 classes) of predictions / targets of any finite magnitude <= 1e6 are a number >= 0 and finite; math.Log is an uninterpreted binary64 function with sign and range facts (finite on positive finite arguments, >= -30 on [1e-13,1])",
+		Items: tiered(func() []Item {
+			return mergeItems(sItems("loss", []string{"BCE"}, items(map[string]int64{"b": 1, "tracked": 0})), sItems("loss", []string{"CE"}, items(map[string]int64{"b": 1, "c": 1, "tracked": 0})))
+		}, func() []Item {
+			return mergeItems(sItems("loss", []string{"BCE"}, items(map[string]int64{"b": 1, "tracked": 0}, map[string]int64{"b": 1, "tracked": 1})), sItems("loss", []string{"CE"}, items(map[string]int64{"b": 1, "c": 1, "tracked": 0}, map[string]int64{"b": 1, "c": 2, "tracked": 0})))
 		})})
 	c05 := findCheck("C05")
 	c05.Harnesses = append(c05.Harnesses, Harness{Name: "C05_big", Pkg: "zzh", Func: "H_C05_big", Reach: []string{"done"},
